@@ -275,8 +275,13 @@ def check(ctx, run):
     # ---------------- R5 ---------------------------------------------------------
     # equals() folded whole (every MockNamedValue member inlined, so helpers are transparent) on two model values. All
     # union members are separate cells in the model, which lets the fold see WHICH member a comparison reads.
+    # (the double member is a struct of two doubles, the value first and its tolerance second: their names are read from the program)
+    dstruct = [r_ for k_, r_ in prog.records.items() if k_.startswith("MockNamedValue::(") and [f_.get("ct") for f_ in r_.get("fields", [])] == ["double", "double"]]
+    if len(dstruct) != 1:
+        raise AnalysisBroken("C09.R5: the (value, tolerance) struct of the double member was not found in MockNamedValue's union")
+    DV, DT = ["doubleValue_." + f_["name"] for f_ in dstruct[0]["fields"]]
     MEMBERS = ["boolValue_", "intValue_", "unsignedIntValue_", "longIntValue_", "unsignedLongIntValue_", "longLongIntValue_", "unsignedLongLongIntValue_",
-               "doubleValue_.value", "doubleValue_.tolerance", "pointerValue_", "constPointerValue_", "functionPointerValue_", "memoryBufferValue_",
+               DV, DT, "pointerValue_", "constPointerValue_", "functionPointerValue_", "memoryBufferValue_",
                "constObjectPointerValue_", "objectPointerValue_", "outputPointerValue_"]
     NVINL = {g.qn for g in prog.functions.values() if g.qn.startswith("MockNamedValue::")}
 
@@ -330,7 +335,7 @@ def check(ctx, run):
         for ans in (1, 0):
             r, seen = fold_equals("double", "double", 0, 0, (), False, dbl=ans)
             wit.append({"doubles_equal answers": ans, "equals": r, "asked": [tuple(x[1:]) for x in seen]})
-            i_v, i_t = MEMBERS.index("doubleValue_.value"), MEMBERS.index("doubleValue_.tolerance")
+            i_v, i_t = MEMBERS.index(DV), MEMBERS.index(DT)
             okd = okd and r == ans and [tuple(x[1:]) for x in seen] == [(1000 + i_v, 2000 + i_v, 1000 + i_t)]
         run.ob("R5", "doubles: (this value, other value, THIS tolerance) -> doubles_equal (NaN/Inf classes decided in C03.R2)", eq.site, okd, witness=wit,
                what="" if okd else "the expectation's own tolerance is not what reaches doubles_equal")
